@@ -16,8 +16,16 @@ from .C01 import *  # noqa: F401,F403  (fixture classes must be importable from 
 
 LEVEL = "proof"
 
-CONTRACTS = [base.C_SVAL, base.C_RSAVE, base.C_SCONT, base.C_DCONT, base.C_RLOAD, base.C_SAVE, base.C_LOAD]
+CONTRACTS = base.C_RLOADS + base.C_SVALS + base.C_RSAVES + base.C_SAVES + [base.C_LOAD] + base.C_SCONTS + base.C_DCONTS
 
 
 def make_registry():
     return base.make_registry(skip_mode=True)
+
+LEMMAS = base.LEMMAS_SKIP
+BOUNDED = [base.B_SKIP]
+TRUSTED = base.TRUSTED
+ASSUMPTIONS = base.ASSUMPTIONS
+EXPLANATION = ("C01's contracts in skip mode: symbolic name sets S_save / S_load (membership predicates over all strings), abstract type tuple T_save, symbolic attribute names; "
+               "postcondition present(n) <=> n in attrs and not (n in S_save or isinstance(value, T_save)) and n not in S_load at every level reached through attributes, "
+               "survivors ~ originals, skip lists forwarded unchanged to every recursive call, persisted by save and merged by load")
